@@ -146,17 +146,33 @@ func TestVerif_C20(t *testing.T) {
 		}
 		events := make(chan string, 1<<16)
 		ctl := &controller{client: cl}
-		var notified int64
+		var notified, notifyChecks int64
+		seenAtNotify := map[string]allocator.PoolCounters{}
+		earlyNotify := map[string]string{}
+		// after a handler returned (still inside the Listener lock): the counters seen at the LAST
+		// notification of each pool must be the counters the handler left behind - every change is followed
+		// by its notification, never preceded by it
+		afterHandler := func(what string) {
+			for pn, seen := range seenAtNotify {
+				if now := ctl.ips.CountersForPool(pn); now != seen {
+					earlyNotify[pn] = fmt.Sprintf("%s: at the last notification for pool %s a fetch returned %+v, after the handler the counters are %+v", what, pn, seen, now)
+				}
+				delete(seenAtNotify, pn)
+			}
+			atomic.AddInt64(&notifyChecks, 1)
+		}
 		ctl.ips = allocator.New(func(name string) {
 			select {
 			case events <- name:
 			default:
 			}
-			// every third notification returns late (the notifying goroutine is descheduled after it woke
-			// the consumer): the consumer may fetch before the notifier goes on
-			if atomic.AddInt64(&notified, 1)%3 == 0 {
-				time.Sleep(30 * time.Microsecond)
-			}
+			// what a consumer fetching at the moment of the notification sees (the callback runs on the
+			// handler's goroutine, inside the Listener lock, so seenAtNotify needs no lock of its own)
+			seenAtNotify[name] = ctl.ips.CountersForPool(name)
+			// every notification returns 200 us late (the notifying goroutine is descheduled after it woke the
+			// consumer): the consumer may fetch before the notifier goes on
+			atomic.AddInt64(&notified, 1)
+			time.Sleep(200 * time.Microsecond)
 		})
 		var elog []c20Entry
 		var inflight, overlapped, fetches int64
@@ -169,6 +185,7 @@ func TestVerif_C20(t *testing.T) {
 				elog = append(elog, c20Entry{kind: "svc", name: name, svc: cp})
 				atomic.AddInt64(&inflight, 1)
 				defer atomic.AddInt64(&inflight, -1)
+				defer afterHandler("SetBalancer(" + name + ")")
 				return ctl.SetBalancer(l, name, svc, eps)
 			},
 			PoolChanged: func(l log.Logger, pools *config.Pools) controllers.SyncState {
@@ -181,6 +198,7 @@ func TestVerif_C20(t *testing.T) {
 				elog = append(elog, c20Entry{kind: "pools", pools: idx})
 				atomic.AddInt64(&inflight, 1)
 				defer atomic.AddInt64(&inflight, -1)
+				defer afterHandler("SetPools")
 				return ctl.SetPools(l, pools)
 			},
 		}
@@ -358,6 +376,10 @@ func TestVerif_C20(t *testing.T) {
 				c.Violation("consumer:published-counters-stale", fmt.Sprintf("after every notification was consumed the counters last fetched for pool %s are %+v but the allocator reports %+v: the last change was not followed by a notification", pn, published[pn], fin), nil)
 			}
 		}
+		for _, pn := range vfSortedKeys(earlyNotify) {
+			c.Violation("consumer:notified-before-counters-refreshed", earlyNotify[pn], nil)
+		}
+		c.CountN("handler-returns-with-notification-check", int(atomic.LoadInt64(&notifyChecks)))
 		for _, pn := range vfSortedKeys(torn) {
 			c.Violation("fetcher:counters-not-conserved", fmt.Sprintf("a concurrent CountersForPool(%s) returned %s: no serial order of the handlers produces such a snapshot", pn, torn[pn]), nil)
 		}
